@@ -617,7 +617,7 @@ Definition prog_gen (copy : bool) (e : ep) (variant nargs : nat) : list instr :=
       [IGetSelf (T 1) F_occupied; IView (T 1) (T 1) true; IReadonly (T 1) (T 1); IReturn (T 1);
        IGetSelf (T 2) F_olist; IView (T 2) (T 2) true; IReadonly (T 2) (T 2); IReturn (T 2)]
   | StoreFromRaw =>                                        (* 567-600; args: a props array, a field array *)
-      (* [C12-required copy; unchanged code stores the caller's arrays themselves (596-597): F16] *)
+      (* [C12-required copy; unchanged code stores the caller's arrays themselves (596-597): FC12a] *)
       (if copy then [ICopy (T 1) 0; ICopy (T 2) 1] else [IMove (T 1) 0; IMove (T 2) 1])
       ++ [ISetSelf F_new0 (T 1); ISetSelf F_new1 (T 2)]
   (* ---- archives ---- *)
@@ -732,7 +732,7 @@ Definition prog_gen (copy : bool) (e : ep) (variant nargs : nat) : list instr :=
       emitter_start copy (Nat.eqb variant 1) 0 ++ emitter_bounds 1 ++ [ICopy (T 19) 2; ISetSelf F_new4 (T 19)]      (* 146 np.array(sigma) *)
   | GACtor =>                                              (* _genetic_algorithm_emitter.py 52-85, operators/_gaussian.py 23 *)
       emitter_start copy (Nat.eqb variant 1) 0 ++ emitter_bounds 1
-      (* [C12-required copy; unchanged GaussianOperator keeps `sigma` as passed: F15] *)
+      (* [C12-required copy; unchanged GaussianOperator keeps `sigma` as passed: FC12b] *)
       ++ (if copy then [ICopy (T 19) 2] else [IMove (T 19) 2]) ++ [ISetSelf F_new4 (T 19)]
   (* ---- emitters: tell / tell_dqd; args solution objective measures [jacobian] status value [extra] ---- *)
   | BaseTell => emitter_tell 0 false (seq 0 nargs)
